@@ -17,13 +17,14 @@ ASSUMPTIONS = ['corners of DESIGN 2.4 not generated: non-exact integer division,
 INTS = [-2, -1, 0, 1, 2, 3, 10]
 FLOATS = [0.5, 2.0]
 FLISTS = [[0.5, 2, 10], [2.5, -1]]
-STRS = ['', 'a', 'ab', 'a,b']
+STRS = ['', 'a', 'ab', 'a,b', 'a\\b', '\\']
 ILISTS = [[], [1], [2, 1], [3, 1, 2], [1, 1], [2, 2, 1], [10, 2], [-1, -2], [2, 10, -1], [5, 3, 11, 2, 10, 1, 3, 12, 0, -4, 7, 2, 100]]
 SLISTS = [[], ['a'], ['b', 'a'], ['ab', '', 'a'], ['b', 'B', '!a'], ['k', 'a', 'j', 'b', 'i', 'c', 'h', 'd', 'g', 'e', 'f', 'a', '10', '9']]
 
 
 def lit(v):
   if isinstance(v, bool): return 'true' if v else 'false'
+  if isinstance(v, str) and '\\' in v and '"' not in v: return '"%s"' % v        # a double-quoted literal has no escapes: the backslash is written as it is
   if isinstance(v, (int, float)): return '(%r)' % v if v < 0 else repr(v)
   if isinstance(v, str): return json.dumps(v)
   if isinstance(v, list): return '[%s]' % ', '.join(lit(x) for x in v)
@@ -144,6 +145,10 @@ def aggregates():
     A['ArgMaxK%d' % K] = ('ArgMaxN(x) = ArgMaxK(x, %d);\nT(r? ArgMaxN= k -> v) distinct :- Rows(k, v);' % K, (lambda K: lambda rows, got: k_smallest_ok(ng(got), rows, K, True))(K))
   A['Array'] = ('T(r? Array= v -> k) distinct :- Rows(k, v);', lambda rows, got: k_smallest_ok(ng(got), rows, len(rows)))
   A['GroupSum'] = ('T(k, r? += v) distinct :- Rows(k, v);', None)
+  # constant grouping keys (an integer literal in GROUP BY is a column position for SQLite unless it is disguised)
+  A['ConstKeySum'] = ('T(7, 0, r? += v) distinct :- Rows(k, v);', None)
+  A['ConstKeyMax'] = ('T(c: 3, r? Max= v, l? List= v) distinct :- Rows(k, v);', None)
+  A['ZeroKeyValueSum'] = ('T(0) += v :- Rows(k, v);', None)
   A['CombineSum'] = ('T(r) :- r == Sum{v :- Rows(k, v)};', simple(lambda rows: sum(v for _, v in rows)))
   A['CombineList'] = ('T(Size(l), Sort(l)) :- l == List{v :- Rows(k, v)};', None)
   return A
@@ -256,6 +261,12 @@ def work_agg(name, n, shard, nsh):
         e = {}
         for k, v in rows: e[k] = e.get(k, 0) + v
         ok = sorted((r[got[1].index('col0')], r[got[1].index('r')]) for r in got[2]) == sorted(e.items())
+      elif name in ('ConstKeySum', 'ConstKeyMax', 'ZeroKeyValueSum'):
+        vs = [v for _, v in rows]
+        if name == 'ConstKeySum': want = [(7, 0, sum(vs))]; gotv = [(r[got[1].index('col0')], r[got[1].index('col1')], r[got[1].index('r')]) for r in got[2]]
+        elif name == 'ConstKeyMax': want = [(3, max(vs), LV(sorted(vs)))]; gotv = [(r[got[1].index('c')], r[got[1].index('r')], LV(sorted(ng(r[got[1].index('l')])))) for r in got[2]]
+        else: want = [(0, sum(vs))]; gotv = [(r[got[1].index('col0')], r[got[1].index('logica_value')]) for r in got[2]]
+        ok = gotv == want
       elif name == 'CombineList':
         ok = len(got[2]) == 1 and got[2][0][0] == len(rows) and ng(got[2][0][1]) == LV(sorted(v for _, v in rows))
       else:
